@@ -65,11 +65,24 @@ type GateJ struct {
 	Runs []int `json:"runs"`
 }
 
+type HistJ struct {
+	Other bool   `json:"other"`
+	C     string `json:"c"`
+	X     int64  `json:"x"`
+	Lim   Num    `json:"lim"`
+	Cx    Num    `json:"cx"`
+	Rej   bool   `json:"rej"`
+}
+
 type CaseJ struct {
 	Sels  []SelJ  `json:"sels"`
 	Costs []CostJ `json:"costs"`
 	Cx    Num     `json:"cx"`
 	Gate  []GateJ `json:"gate"`
+	// histories (ComplexityGate)
+	Cache    string  `json:"cache"`
+	NDefault int64   `json:"ndefault"` // default of $n, -1 = none
+	Hist     []HistJ `json:"hist"`
 }
 
 type FieldA struct {
@@ -131,7 +144,11 @@ type tlcOut struct {
 }
 
 func runTLC(cfg, scratch string, workers int, emit, coverage bool, timeout time.Duration) *tlcOut {
-	res, err := vlib.RunTLC(vlib.TLCOpts{Module: "Complexity", Config: cfg, Workers: workers, Timeout: timeout,
+	module := "Complexity"
+	if strings.HasPrefix(cfg, "MC_ComplexityGate") {
+		module = "ComplexityGate"
+	}
+	res, err := vlib.RunTLC(vlib.TLCOpts{Module: module, Config: cfg, Workers: workers, Timeout: timeout,
 		Scratch: vlib.Work("C14", scratch), Coverage: coverage})
 	if err != nil {
 		vlib.Infra("TLC %s: %v", cfg, err)
@@ -177,7 +194,7 @@ func runTLC(cfg, scratch string, workers int, emit, coverage bool, timeout time.
 		vlib.Infra("TLC %s printed no cases (vacuous)", cfg)
 	}
 	// every printed case is one Compute step: exactly a third of the distinct states are "done" states
-	if emit && int64(len(out.cases))*2 > res.Distinct {
+	if emit && module == "Complexity" && int64(len(out.cases))*2 > res.Distinct {
 		vlib.Infra("TLC %s: %d printed cases do not fit %d states", cfg, len(out.cases), res.Distinct)
 	}
 	return out
@@ -260,6 +277,7 @@ type Conc struct {
 	Idx     int        `json:"idx"`
 	Variant string     `json:"variant"` // argument delivery / document form
 	Cx      int64      `json:"cx"`
+	CxRun   []int64    `json:"cx_run"` // the complexity prescribed for run i (differs per run only in histories)
 	Rej     []bool     `json:"rej"`
 	LimRel  []string   `json:"limrel"`
 	Shape   string     `json:"shape"`
@@ -278,6 +296,7 @@ type renderer struct {
 	nFrag   *int
 	decls   []string
 	vars    map[string]any
+	hasN    bool
 }
 
 func (rd *renderer) sels(tn string, sels []SelJ) string {
@@ -307,6 +326,14 @@ func (rd *renderer) sel(tn string, s SelJ) string {
 			*rd.nAlias++
 			out = fmt.Sprintf("f%d: %s", *rd.nAlias, s.Name)
 		}
+		if s.Ax == "var" {
+			// the request variable of a history (declared once per operation)
+			if !rd.hasN {
+				rd.hasN = true
+				rd.decls = append(rd.decls, "$n: Int")
+			}
+			out += "(x: $n)"
+		}
 		if s.Ax == "set" {
 			switch rd.argMode {
 			case "var":
@@ -334,10 +361,12 @@ func (rd *renderer) sel(tn string, s SelJ) string {
 		}
 		return "... on " + s.On + " " + rd.sels(s.On, s.Sels)
 	case "spread":
-		body := rd.sels(s.On, s.Sels)
-		key := s.On + " " + body
+		// equal definitions are ONE named fragment, spread several times
+		kb, _ := json.Marshal(s.Sels)
+		key := s.On + " " + string(kb)
 		name, ok := rd.frags[key]
 		if !ok {
+			body := rd.sels(s.On, s.Sels)
 			*rd.nFrag++
 			name = fmt.Sprintf("F%d", *rd.nFrag)
 			rd.frags[key] = name
@@ -405,10 +434,10 @@ func limRel(l, cx int64) string {
 // concretise renders one abstract case. decoys are other trees placed in the same document.
 func concretise(s *SchemaA, src string, idx int, c *CaseJ, decoys []*CaseJ, r *rand.Rand, argMode string, fixed bool) *Conc {
 	nA, nV, nF := 0, 0, 0
-	frags := map[string]string{}
 	var fragDefs []string
 	renderOp := func(name string, t *CaseJ, vars map[string]any) string {
-		rd := &renderer{s: s, r: r, argMode: argMode, frags: frags, nAlias: &nA, nVar: &nV, nFrag: &nF, vars: vars}
+		// fragments are shared within one operation (their variables are that operation's)
+		rd := &renderer{s: s, r: r, argMode: argMode, frags: map[string]string{}, nAlias: &nA, nVar: &nV, nFrag: &nF, vars: vars}
 		body := rd.sels("Query", t.Sels)
 		fragDefs = append(fragDefs, rd.fragDef...)
 		head := ""
@@ -467,9 +496,72 @@ func concretise(s *SchemaA, src string, idx int, c *CaseJ, decoys []*CaseJ, r *r
 		l := conc(g.Lim)
 		cc.Case.Limits = append(cc.Case.Limits, l)
 		cc.Rej = append(cc.Rej, g.Rej)
+		cc.CxRun = append(cc.CxRun, cc.Cx)
 		cc.LimRel = append(cc.LimRel, limRel(l, cc.Cx))
 	}
 	return cc
+}
+
+// concretiseHist renders one history of ComplexityGate: one query text, a sequence of requests.
+func concretiseHist(s *SchemaA, idx int, c *CaseJ, r *rand.Rand) *Conc {
+	nA, nV, nF := 0, 0, 0
+	rd := &renderer{s: s, r: r, argMode: "lit", frags: map[string]string{}, nAlias: &nA, nVar: &nV, nFrag: &nF, vars: map[string]any{}}
+	body := rd.sels("Query", c.Sels)
+	opName := ""
+	head := "query "
+	if r.Intn(2) == 0 {
+		opName = "Target"
+		head += "Target"
+	}
+	if len(rd.decls) == 0 {
+		vlib.Infra("history tree without a request variable")
+	}
+	if len(rd.decls) != 1 || rd.decls[0] != "$n: Int" {
+		vlib.Infra("history tree declares %v", rd.decls)
+	}
+	if c.NDefault >= 0 {
+		rd.decls[0] = fmt.Sprintf("$n: Int = %d", c.NDefault)
+	}
+	doc := head + "(" + strings.Join(rd.decls, ", ") + ") " + body
+	if len(rd.fragDef) > 0 {
+		doc += "\n" + strings.Join(rd.fragDef, "\n")
+	}
+	other := "query " + opName + " { s }"
+	cc := &Conc{Src: "hist", Idx: idx, Variant: fmt.Sprintf("cache=%s/ndefault=%d", c.Cache, c.NDefault), Shape: shapeOf(c.Sels), CostCls: costClass(c.Costs), Abs: c}
+	cc.Case = ur.C14Case{Cmd: "c14", ID: fmt.Sprintf("hist-%d", idx), Query: doc, OpName: opName, Vars: map[string]any{},
+		Costs: map[string]ur.C14Cost{}, Cache: c.Cache}
+	for _, k := range c.Costs {
+		cc.Case.Costs[k.Slot] = ur.C14Cost{K: k.Fn.K, C: conc(k.Fn.C), M: k.Fn.M}
+	}
+	seq := []string{}
+	for _, h := range c.Hist {
+		st := ur.C14Step{Vars: map[string]any{}, Limit: conc(h.Lim)}
+		if h.Other {
+			st.Query = other
+			seq = append(seq, "other")
+		} else {
+			if h.C != "none" {
+				st.Vars["n"] = h.X
+			}
+			seq = append(seq, h.C+map[bool]string{true: "!", false: ""}[h.Rej])
+		}
+		cc.Case.Hist = append(cc.Case.Hist, st)
+		cc.Case.Limits = append(cc.Case.Limits, st.Limit)
+		cc.Rej = append(cc.Rej, h.Rej)
+		cc.CxRun = append(cc.CxRun, conc(h.Cx))
+		cc.LimRel = append(cc.LimRel, fmt.Sprintf("%s/def%d:%s", c.Cache, c.NDefault, strings.Join(seq, ">")))
+	}
+	return cc
+}
+
+// repeatedSpread reports whether some named fragment is spread at least twice in the document.
+func repeatedSpread(q string) bool {
+	for i := 1; i < 12; i++ {
+		if strings.Count(q+" ", fmt.Sprintf("...F%d ", i)) >= 2 {
+			return true
+		}
+	}
+	return false
 }
 
 func hasArgSet(sels []SelJ) bool {
@@ -489,6 +581,7 @@ type counters struct {
 	rejected, admitted, stats, statsRej int64
 	multi, spreads, iface, argvar, sat  int64
 	calcs                               int64
+	respread, histReqs, histCached      int64
 	sampled                             map[string]bool
 }
 
@@ -512,6 +605,12 @@ func judge(c *vlib.Check, k *counters, binding string, probe bool, cc *Conc, res
 	k.add(func() { k.calcs++ })
 	if res.CalcErr != "" {
 		c.Violate("calculate-panics", fmt.Sprintf("complexity.Calculate: %s\n%s", res.CalcErr, desc()), replay)
+	} else if len(cc.Case.Hist) > 0 {
+		for i, got := range res.Calcs {
+			if got != cc.CxRun[i] {
+				c.Violate("calc-differs:"+cc.CostCls, fmt.Sprintf("complexity.Calculate = %d with variables %v, the definition gives %d\n%s", got, cc.Case.Hist[i].Vars, cc.CxRun[i], desc()), replay)
+			}
+		}
 	} else if res.Calc != cc.Cx {
 		c.Violate("calc-differs:"+cc.CostCls, fmt.Sprintf("complexity.Calculate = %d, the definition gives %d\n%s", res.Calc, cc.Cx, desc()), replay)
 	}
@@ -522,7 +621,17 @@ func judge(c *vlib.Check, k *counters, binding string, probe bool, cc *Conc, res
 		c.AddEvals(1)
 		c.Class(cc.Shape + "|" + cc.CostCls + "|" + cc.LimRel[i])
 		lim := cc.Case.Limits[i]
-		where := fmt.Sprintf("limit %d (%s, Cx=%d, %s)", lim, cc.LimRel[i], cc.Cx, map[bool]string{true: "FixedComplexityLimit", false: "ComplexityLimit{Func}"}[cc.Case.Fixed])
+		cxi := cc.CxRun[i]
+		where := fmt.Sprintf("limit %d (%s, Cx=%d, %s)", lim, cc.LimRel[i], cxi, map[bool]string{true: "FixedComplexityLimit", false: "ComplexityLimit{Func}"}[cc.Case.Fixed])
+		if len(cc.Case.Hist) > 0 {
+			where = fmt.Sprintf("request %d of the history (query cache %s) with variables %v, limit %d, Cx=%d", i+1, cc.Case.Cache, cc.Case.Hist[i].Vars, lim, cxi)
+			k.add(func() {
+				k.histReqs++
+				if i > 0 && cc.Case.Cache != "none" {
+					k.histCached++
+				}
+			})
+		}
 		if r.Bad != "" {
 			c.Violate("bad-response", fmt.Sprintf("%s: %s\n%s", where, r.Bad, desc()), replay)
 			continue
@@ -553,8 +662,8 @@ func judge(c *vlib.Check, k *counters, binding string, probe bool, cc *Conc, res
 					k.statsRej++
 				}
 			})
-			if r.StatsCx != cc.Cx {
-				c.Violate("stats-complexity-differs", fmt.Sprintf("%s: ComplexityStats.Complexity = %d, the definition gives %d\n%s", where, r.StatsCx, cc.Cx, desc()), replay)
+			if r.StatsCx != cxi {
+				c.Violate("stats-complexity-differs", fmt.Sprintf("%s: ComplexityStats.Complexity = %d, the definition gives %d\n%s", where, r.StatsCx, cxi, desc()), replay)
 			}
 			if r.StatsLimit != lim {
 				c.Violate("stats-limit-differs", fmt.Sprintf("%s: ComplexityStats.ComplexityLimit = %d\n%s", where, r.StatsLimit, desc()), replay)
@@ -567,6 +676,9 @@ func judge(c *vlib.Check, k *counters, binding string, probe bool, cc *Conc, res
 		}
 		if strings.Contains(cc.Case.Query, "fragment ") {
 			k.spreads++
+		}
+		if repeatedSpread(cc.Case.Query) {
+			k.respread++
 		}
 		if strings.Contains(cc.Shape, "node{") {
 			k.iface++
@@ -762,9 +874,18 @@ func main() {
 	if thorough {
 		thmCfg, genCfg = "MC_Complexity_thorough.cfg", "MC_Complexity_thorough_emit.cfg"
 	}
-	var small, thm, grid, gen *tlcOut
+	gateCfg := "MC_ComplexityGate.cfg"
+	if thorough {
+		gateCfg = "MC_ComplexityGate_thorough.cfg"
+	}
+	var small, thm, grid, gen, frag, gate *tlcOut
 	var wg sync.WaitGroup
-	wg.Add(4)
+	wg.Add(6)
+	go func() {
+		defer wg.Done()
+		frag = runTLC("MC_Complexity_frag.cfg", "tlc-frag", 1, true, false, 15*time.Minute)
+	}()
+	go func() { defer wg.Done(); gate = runTLC(gateCfg, "tlc-gate", 1, true, false, 20*time.Minute) }()
 	go func() {
 		defer wg.Done()
 		small = runTLC("MC_Complexity_small.cfg", "tlc-small", 1, false, thorough, 20*time.Minute)
@@ -779,7 +900,7 @@ func main() {
 	if thm.res.Distinct != gen.res.Distinct {
 		vlib.Infra("the theorem run (%d states) and the emission run (%d states) explored different state spaces", thm.res.Distinct, gen.res.Distinct)
 	}
-	for _, t := range []*tlcOut{small, thm, grid, gen} {
+	for _, t := range []*tlcOut{small, thm, grid, gen, frag, gate} {
 		c.AddStates(t.res.Distinct, t.res.Generated)
 	}
 	if thorough {
@@ -789,6 +910,7 @@ func main() {
 			}
 		}
 	}
+	fmt.Fprintf(os.Stderr, "TLC: frag %d cases %.0fs, %s %d histories (%d states) %.0fs\n", len(frag.cases), frag.res.WallS, gateCfg, len(gate.cases), gate.res.Distinct, gate.res.WallS)
 	fmt.Fprintf(os.Stderr, "TLC: small %d states %.0fs, theorems %s %d states %.0fs, grid %d cases %.0fs, %s %d cases %.0fs\n",
 		small.res.Distinct, small.res.WallS, thmCfg, thm.res.Distinct, thm.res.WallS, len(grid.cases), grid.res.WallS, genCfg, len(gen.cases), gen.res.WallS)
 	if fmt.Sprint(grid.schema.Max) != fmt.Sprint(gen.schema.Max) || conc(gen.schema.Max) != math.MaxInt64 {
@@ -831,7 +953,16 @@ func main() {
 		}
 	}
 	add("grid", grid.cases)
+	add("frag", frag.cases)
 	add("gen", gen.cases)
+	nHist := 0
+	for i, h := range gate.cases {
+		if len(h.Hist) == 0 {
+			vlib.Infra("%s printed a line without a history", gateCfg)
+		}
+		concs = append(concs, concretiseHist(schemaA, i, h, r))
+		nHist++
+	}
 
 	// 4. replay against the real code
 	k := &counters{}
@@ -857,21 +988,25 @@ func main() {
 	pw.Wait()
 
 	// 5. non-vacuity and evidence
-	if k.rejected == 0 || k.admitted == 0 || k.stats == 0 || k.multi == 0 || k.spreads == 0 || k.iface == 0 || k.argvar == 0 || k.sat == 0 {
+	if k.rejected == 0 || k.admitted == 0 || k.stats == 0 || k.multi == 0 || k.spreads == 0 || k.iface == 0 || k.argvar == 0 || k.sat == 0 || k.respread == 0 || k.histReqs == 0 || k.histCached == 0 {
 		vlib.Infra("vacuous run: %+v", k)
 	}
-	c.Set("rule", "TLC enumerates every selection tree over the abstract schema (objects, interface Node with implementors A/B/Named, union U; fields, arguments, inline fragments, fragment spreads, __typename, __schema) with at most MaxSize nodes (quick 3, thorough 4; siblings in canonical order, the concretiser permutes them) x every assignment of the cost-function family {const 0/2/-1/H/H+1/MAX-1/MAX, child+0/2/MAX-1, child*2, child-1, child+arg} to at most two Type.field slots plus the uniform assignments, plus the safeAdd grid corpus (7 two-cost operation shapes x all pairs of the 12-point int boundary grid); the spec prescribes Cx and the gate decision for limits {Cx-1, Cx, Cx+1, 0, MAX}. Each case runs against complexity.Calculate and an HTTP POST per limit on handler.Server+ComplexityLimit, over a hand-written ExecutableSchema and over generated servers (both layouts). A class is distinct by (tree shape, cost-assignment class, limit relation).")
+	c.Set("rule", "TLC enumerates every selection tree over the abstract schema (objects, interface Node with implementors A/B/Named, union U; fields, arguments, inline fragments, fragment spreads, __typename, __schema) with at most MaxSize nodes (quick 3, thorough 4; siblings in canonical order, the concretiser permutes them) x every assignment of the cost-function family {const 0/2/-1/H/H+1/MAX-1/MAX, child+0/2/MAX-1, child*2, child-1, child+arg} to at most two Type.field slots plus the uniform assignments, plus the safeAdd grid corpus (7 two-cost operation shapes x all pairs of the 12-point int boundary grid), plus the fragment corpus (one named fragment spread 2-3 times: sibling fields, different parent types, nested, twice in one selection set, inside another fragment; 30 shapes x cost pairs incl. child*k); the spec prescribes Cx and the gate decision for limits {Cx-1, Cx, Cx+1, 0, MAX}. Each case runs against complexity.Calculate and an HTTP POST per limit on handler.Server+ComplexityLimit, over a hand-written ExecutableSchema and over generated servers (both layouts). ComplexityGate.tla adds histories: one server (query cache none/MapCache/lru/lru of size 1) receives every sequence of 2 (thorough 3, optionally another query text in between) requests with the same query text whose cost depends on the request variable $n in {absent, 3, 100} at limit Cx-1 or Cx; each request is judged against its own prescribed decision. A class is distinct by (tree shape, cost-assignment class, limit relation or cache kind + request sequence).")
 	c.Set("exhaustive", true)
 	c.Set("tlc", map[string]any{
 		"small_theorems": map[string]any{"distinct": small.res.Distinct, "wall_s": small.res.WallS},
 		"theorems":       map[string]any{"config": thmCfg, "distinct": thm.res.Distinct, "wall_s": thm.res.WallS},
 		"grid":           map[string]any{"distinct": grid.res.Distinct, "cases": len(grid.cases), "wall_s": grid.res.WallS},
+		"fragments":      map[string]any{"distinct": frag.res.Distinct, "cases": len(frag.cases), "wall_s": frag.res.WallS},
+		"gate_histories": map[string]any{"config": gateCfg, "distinct": gate.res.Distinct, "histories": len(gate.cases), "wall_s": gate.res.WallS},
 		"corpus":         map[string]any{"config": genCfg, "distinct": gen.res.Distinct, "cases": len(gen.cases), "wall_s": gen.res.WallS},
 	})
 	c.Set("concrete_cases", len(concs))
 	c.Set("observed", map[string]any{"calculate_calls": k.calcs, "requests_over_limit": k.rejected, "requests_within_limit": k.admitted,
 		"stats_observed": k.stats, "stats_observed_on_rejected": k.statsRej, "multi_operation_documents": k.multi,
-		"documents_with_named_fragments": k.spreads, "interface_field_cases": k.iface, "cases_with_variables": k.argvar, "saturated_at_MaxInt": k.sat})
+		"documents_with_named_fragments": k.spreads, "interface_field_cases": k.iface, "cases_with_variables": k.argvar, "saturated_at_MaxInt": k.sat,
+		"documents_spreading_one_fragment_repeatedly": k.respread, "history_requests": k.histReqs, "history_requests_after_first_on_caching_server": k.histCached})
+	c.Set("histories", nHist)
 	c.Assume("the cost functions of the family are the harness's own user code (saturating at both ends); user functions that overflow by themselves are outside the statement")
 	c.Assume("symbolic integers h*H+d (H=(MaxInt-1)/2) are compared lexicographically: exact while |d| < H/2; the model keeps |d| < 100 (invariant TDSmall) and the lemma PairAlgebra is checked by TLC")
 	c.Assume("hand-written schema: 'a resolver ran' is observed as ExecutableSchema.Exec being invoked; generated servers: resolver Start events of the universal resolver")
@@ -886,6 +1021,15 @@ func main() {
 		}
 	}
 	pick(func(cc *Conc) bool { return cc.Src == "grid" && cc.Cx == math.MaxInt64 && len(cc.Case.Costs) == 3 })
+	pick(func(cc *Conc) bool {
+		return cc.Src == "frag" && strings.Contains(cc.CostCls, "mul") && len(cc.Case.Costs) == 2
+	})
+	for _, cc := range concs {
+		if cc.Src == "hist" && cc.Case.Cache == "lru" && cc.Rej[0] != cc.Rej[len(cc.Rej)-1] {
+			c.Sample(map[string]any{"query": cc.Case.Query, "cache": cc.Case.Cache, "costs": cc.Case.Costs, "history": cc.Case.Hist, "cx": cc.CxRun, "rejected": cc.Rej})
+			break
+		}
+	}
 	pick(func(cc *Conc) bool {
 		return cc.Src == "gen" && strings.Contains(cc.Variant, "multi") && len(cc.Case.Vars) > 0
 	})
